@@ -1,7 +1,7 @@
 PROP = {
     "modules": ["Discv5Model.Props.C11"],
     "lemma_modules": ["Discv5Model.Proofs.ServiceNodes"],
-    "engines": [{"name": "service", "quick": 150, "thorough": 4000}],
+    "engines": [{"name": "service", "quick": 150, "thorough": 15000}],
     "rule": "service engine, profile C11: requester A and honest responder B (a second real Service in the same process, "
             "table mined to hold records at distances 249..256 from it, some padded to ~300 bytes so answers span several "
             "packets); lookups whose target is crafted to lie at log2 distance 0, 1, 2, 3..8, 9..245, 246..256 from B "
